@@ -147,6 +147,24 @@ def run(prog, tier):
     obs.append(struct_ob("refit-order", f"{prog.cls('AcquisitionFunction').module.name}.AcquisitionFunction[incumbent]", not inc_bad and inc_n > 0,
                          "mu_max must be the maximum of the regressor's data wherever it is set: " + "; ".join(inc_bad[:2]), ACQ,
                          prog.cls("AcquisitionFunction").node.lineno, tier="F"))
+    # every acquisition value is a function of the regressor's prediction AT the query point: self.gp(..) and
+    # self.gp.spatial_derivatives(..) receive the method's own point argument, untouched
+    arg_bad, arg_n = [], 0
+    for ci_ in [prog.cls("AcquisitionFunction")] + prog.subclasses("AcquisitionFunction"):
+        for mname_, fn_ in ci_.methods.items():
+            if len(fn_.args.args) < 2:
+                continue
+            xp_ = fn_.args.args[1].arg
+            rz_ = Resolver(fn_, prog, ci_.module, ci_)
+            for cl_ in ast.walk(fn_):
+                if isinstance(cl_, ast.Call) and U(cl_.func) in ("self.gp", "self.gp.spatial_derivatives", "self.gp.gradient", "self.gp.__call__") and cl_.args:
+                    arg_n += 1
+                    t_ = rz_.term(cl_.args[0], rz_.stmt_of(cl_))
+                    if not (isinstance(t_, ast.Name) and t_.id == xp_):
+                        arg_bad.append(f"{ci_.name}.{mname_} line {cl_.lineno}: `{U(cl_)[:70]}` (argument `{U(t_)[:50]}`)")
+    obs.append(struct_ob("value-form", f"{prog.cls('AcquisitionFunction').module.name}[predictor-argument]", not arg_bad and arg_n > 0,
+                         "the regressor is queried at the point the acquisition function was given: " + "; ".join(arg_bad[:2]), ACQ,
+                         prog.cls("AcquisitionFunction").node.lineno, tier="F"))
     for ci in prog.subclasses("AcquisitionFunction"):
         if ci.name not in refs:
             info.append(f"C18 sweep: acquisition class {ci.name} has no reference in the rule table; not checked")
@@ -368,6 +386,23 @@ def run(prog, tier):
         why = f"append lines {l_x},{l_y}; refit line {gp_st[0].lineno} with {kw}; update line {l_up}"
     else:
         why = f"append lines {l_x},{l_y}; refits {len(gp_st)}; update line {l_up}"
+    # between the appends and the refit nothing else stores into the data arrays (a de-duplication, a sort, a trim drops or
+    # re-pairs evaluations)
+    for st_ in body:
+        for x_ in ast.walk(st_):
+            if isinstance(x_, (ast.Assign, ast.AugAssign)):
+                for t_ in (x_.targets if isinstance(x_, ast.Assign) else [x_.target]):
+                    for el_ in (t_.elts if isinstance(t_, ast.Tuple) else [t_]):
+                        b_ = el_
+                        while isinstance(b_, ast.Subscript):
+                            b_ = b_.value
+                        if U(b_) in ("self.x", "self.y", "self.y_err"):
+                            v_ = x_.value if isinstance(x_, ast.Assign) else None
+                            is_app = isinstance(v_, ast.Call) and U(v_.func) in ("append", "vstack", "hstack", "concatenate", "row_stack") \
+                                and isinstance(el_, ast.Attribute) and not isinstance(t_, ast.Tuple)
+                            if not is_app:
+                                ok = False
+                                why += f"; line {x_.lineno}: `{U(x_)[:70]}` stores into the data arrays otherwise than by appending the new evaluation"
     # every evaluation handed in becomes part of the data: nothing returns before the update (an early exit for a point "already
     # known" drops a repeated / nearby evaluation and leaves the incumbent as it was)
     if l_up:
